@@ -21,8 +21,11 @@ func Index(json any) any {
 	classIndex := make(map[string][]string)
 	nodeIndex := make(types.ObjectMap)
 
-	g := json.(types.ObjectMap)["@graph"]
-	nodes := g.([]any)
+	// a document without nodes is flattened to an empty list, not to a map holding an empty @graph
+	var nodes []any
+	if flattened, ok := json.(types.ObjectMap); ok {
+		nodes, _ = flattened["@graph"].([]any)
+	}
 
 	for _, nn := range nodes {
 		n := nn.(types.ObjectMap)
